@@ -71,7 +71,15 @@ struct Expect {
     reply: Option<Option<u8>>,
 }
 
-fn expect(master_role: bool, self_en: bool, sec: &mut Sec, reset_by: Option<u16>, ctrl: u8, dst: u16, src: u16) -> Expect {
+fn expect(
+    master_role: bool,
+    self_en: bool,
+    sec: &mut Sec,
+    reset_by: Option<u16>,
+    ctrl: u8,
+    dst: u16,
+    src: u16,
+) -> Expect {
     let nothing = Expect {
         addressed: false,
         deliver: Some(false),
@@ -226,7 +234,15 @@ fn exhaustive_table() -> (u64, Vec<J>, Option<(Fail, J)>) {
                                     vec![]
                                 };
                                 let frame = rl::encode(ctrl, *dst, *src, &payload);
-                                let e = expect(master_role, self_en, &mut sec, if start_reset { Some(1) } else { None }, ctrl, *dst, *src);
+                                let e = expect(
+                                    master_role,
+                                    self_en,
+                                    &mut sec,
+                                    if start_reset { Some(1) } else { None },
+                                    ctrl,
+                                    *dst,
+                                    *src,
+                                );
                                 let seen = feed(&mut layer, &frame);
                                 let js = J::o(vec![
                                     (
